@@ -25,7 +25,9 @@ def both (es : St) (loc f g : Nat) : Verdict :=
 
 def step (es : St) (ws : List String) : St × String :=
   match ws with
-  | ["init"] => (effs ZChain.Generated.C44.table ZChain.Generated.C44.contexts, "ok")
+  | ["init"] =>
+    -- the table is a constant: its effective accesses are computed once per process
+    ((if es.isEmpty then effs ZChain.Generated.C44.table ZChain.Generated.C44.contexts else es), "ok")
   | ["pair", loc, f, g] => (es, showV (both es (encodeName loc) (encodeName f) (encodeName g)))
   | _ => (es, "bad-op")
 
